@@ -124,6 +124,18 @@ Theorem C18_duplicate_binding : forall fx self m nodes links, has_dup_binding (t
 Proof. exact duplicate_binding_error. Qed.
 Print Assumptions C18_duplicate_binding.
 
+(* two submodule fields of one name and shape (own + inherited, or x[2] next to x[3]): fix a6f4ffc *)
+Theorem C18_duplicate_submodule_field : forall self m nodes links gates subs,
+  has_dup_binding (tc_args self) = false -> transform_gates (md_gates m) = Ok gates ->
+  transform_submodules true self (md_subs m) nodes = Ok subs ->
+  has_dup_field (subs ++ match md_inherit m with
+                         | Some p => match lookup p nodes with Some (arch, _) => n_subs arch | None => [] end
+                         | None => [] end) = true ->
+  (forall p, md_inherit m = Some p -> lookup p nodes <> None) ->
+  transform_module true self m nodes links = Err K_SYMBOL_ALREADY_DEFINED.
+Proof. exact duplicate_submodule_field_error. Qed.
+Print Assumptions C18_duplicate_submodule_field.
+
 Theorem C18_zero_sized_gate_cluster : forall fx self m nodes links g,
   has_dup_binding (tc_args self) = false -> In g (md_gates m) -> fd_kard g = Cluster 0 ->
   transform_module fx self m nodes links = Err K_INVALID_GATE.
